@@ -44,6 +44,13 @@ inductive GetErr where
   | stale | notFound | invalidType | invalidReport
 deriving Repr, DecidableEq, Inhabited
 
+instance : DecidableEq (Except GetErr Nat) := fun a b =>
+  match a, b with
+  | .ok x, .ok y => if h : x = y then isTrue (by rw [h]) else isFalse (by intro e; injection e with e; exact h e)
+  | .error x, .error y => if h : x = y then isTrue (by rw [h]) else isFalse (by intro e; injection e with e; exact h e)
+  | .ok _, .error _ => isFalse (by intro e; cases e)
+  | .error _, .ok _ => isFalse (by intro e; cases e)
+
 /-- `Report::get_field` -/
 def getField (reportUid : Nat) (fields : List Nat) (field : Name) (sc : Scope) : Except GetErr Nat :=
   if sc.uid ≠ reportUid then .error .stale
@@ -54,5 +61,17 @@ def getField (reportUid : Nat) (fields : List Nat) (field : Name) (sc : Scope) :
       | none => .error .invalidReport
       | some v => .ok v
     | some _ => .error .invalidType
+
+/-- `Report::get_field` with the Rust indexing kept as a panicking primitive behind its guard -/
+def getFieldP (reportUid : Nat) (fields : List Nat) (field : Name) (sc : Scope) : Out (Except GetErr Nat) :=
+  if sc.uid ≠ reportUid then .ok (.error .stale)
+  else match sc.get field with
+    | none => .ok (.error .notFound)
+    | some (.report idx _ _) =>
+      if idx ≥ fields.length then .ok (.error .invalidReport)
+      else do
+        let v ← idxP fields idx
+        pure (.ok v)
+    | some _ => .ok (.error .invalidType)
 
 end Portus.Rt
